@@ -595,6 +595,14 @@ def shared_consumption_probe(rep):
         both("zip(range(%d), handle)" % k, lambda h: a.zip(range(k), h), lambda s_: zip(range(k), s_))
         both("batched(2) first %d" % k, lambda h: a.islice(a.batched(h, 2), k), lambda s_: it_.islice(it_.batched(s_, 2), k))
         both("pairwise first %d" % k, lambda h: a.islice(a.pairwise(h), k), lambda s_: it_.islice(it_.pairwise(s_), k))
+        import heapq as hq_
+        both("merge(handle, [100..]) first %d" % k, lambda h: a.islice(a.merge(h, [100, 101, 102]), k), lambda s_: it_.islice(hq_.merge(s_, [100, 101, 102]), k))
+        both("merge([2, 5], handle) first %d" % k, lambda h: a.islice(a.merge([2, 5], h), k), lambda s_: it_.islice(hq_.merge([2, 5], s_), k))
+        both("accumulate first %d" % k, lambda h: a.islice(a.accumulate(h), k), lambda s_: it_.islice(it_.accumulate(s_), k))
+        both("enumerate first %d" % k, lambda h: a.islice(a.enumerate(h), k), lambda s_: it_.islice(enumerate(s_), k))
+        both("filter first %d" % k, lambda h: a.islice(a.filter(lambda x: x % 2, h), k), lambda s_: it_.islice(filter(lambda x: x % 2, s_), k))
+        both("starmap first %d" % k, lambda h: a.islice(a.starmap(lambda x: x, a.map(lambda x: (x,), h)), k), lambda s_: it_.islice(it_.starmap(lambda x: x, map(lambda x: (x,), s_)), k))
+        both("zip_longest(handle, range(2)) first %d" % k, lambda h: a.islice(a.zip_longest(h, range(2)), k), lambda s_: it_.islice(it_.zip_longest(s_, range(2)), k))
     # groupby on the shared handle: advance to a later group, poll an earlier (stale) group, read some of the live one:
     # the next tool continues exactly where itertools.groupby leaves a shared iterator
 
@@ -797,6 +805,29 @@ def scope_object_probes(rep):
         if why3:
             fails += 1
             rep.violation("scoped:separate-iterator", {"iterator_has_aclose": with_close, "why": why3})
+    # (4) the block sits inside an async generator that is closed while suspended at a yield inside the block (GeneratorExit
+    # leaves the block): the underlying iterator is closed exactly once all the same
+    for kind in ("close", "close_ga", "send"):
+        u4 = make_u(kind, [Obj(j + 1, j) for j in range(6)])
+
+        async def head_tail():
+            async with a.scoped_iter(u4) as h:
+                yield await h.__anext__()
+                yield await h.__anext__()
+
+        async def close_early():
+            g = head_tail()
+            await g.__anext__()
+            await g.aclose()
+        try:
+            drive(close_early())
+            why4 = None if u4.closed == 1 else "a generator holding the block was closed at a yield: the underlying iterator was closed %d times" % u4.closed
+        except BaseException as e:  # noqa
+            why4 = "failed with %r" % (e,)
+        rep.count(("scope-generator-exit", kind), True)
+        if why4:
+            fails += 1
+            rep.violation("scoped:generator-exit", {"underlying": kind, "why": why4})
     rep.count(("scope-failing-close",), True)
     if why:
         fails += 1
